@@ -15,7 +15,7 @@ CHECKS = {
             "Decides, for every path of every apply_ufunc call site in the package, that each argument carrying a core "
             "dimension is single-chunk along it (chunk({d:-1}) reaching definitions / allow_rechunk / dimension "
             "coordinate), and from the clang AST that the C routine always runs under the GIL. These are necessary "
-            "conditions of 'succeeds for any chunking' and 'any scheduler'; they hold for all inputs by construction.",
+            "conditions of 'succeeds for any chunking' and 'any scheduler'; they hold for all inputs by construction. Also: kernels of apply_ufunc sites write no module-level object / mutable default (effect summaries over everything they reach) and the C wrapper keeps no static or file-scope object, so concurrent dask tasks share nothing writable.",
             "numerical equality chunked vs in-memory and dask's own graph correctness are not decided.",
             "custom AST dataflow lint (CFG + reaching definitions over apply_ufunc sites) + clang JSON AST who-may-call rule",
             "DESIGN.md section 4 C07"),
@@ -37,7 +37,7 @@ CHECKS = {
             "memoising decorators, module-level objects and mutable defaults written from any public entry point "
             "(interprocedural summaries), input mutation (shared with C17), and the C extension's file-scope buffers "
             "(shape guard must imply both extents equal; buffers overwritten over their full range before first read). "
-            "Two genuine defects on the pinned tree are listed as known findings.",
+            "Two genuine defects on the pinned tree are listed as known findings. Also: every distinct write site on a module-level object is reported (a second writer cannot hide behind a known one); interpreter-wide settings (warning filters, numpy error state, ...) are changed only inside their restoring context manager.",
             "equality of results across arbitrary histories is not executed; counting-sort permutation in ptsort is an "
             "assumption; the alias model is the trusted base.",
             "typestate/ownership lint over ast (effect summaries) + definite-initialisation and guard-implication rules on "
@@ -50,7 +50,7 @@ CHECKS = {
             "all 16 guard valuations), plus pairwise agreement of the layout facts (copy-in, copy-out, allocation order, "
             "shape extraction, C-contiguous float32 at every Python call site) and the early-exit condition of the "
             "watershed-line sweeps. The whole immersion walks on this table: a wrong entry splits or merges basins across "
-            "the seam.",
+            "the seam. Also: every whole-spectrum sweep in specpart.c covers all nspec bins; the watershed-line reassignment reads labels from one array and writes a snapshot framed by full copies.",
             "that immersion yields exactly one label per regional maximum, basin connectivity and shift-equivariance of "
             "tie-breaking are runtime properties of the Vincent-Soille algorithm and are NOT decided.",
             "clang JSON AST extraction + exact symbolic (polynomial) decomposition and finite case analysis; ast idiom rule "
@@ -62,7 +62,7 @@ CHECKS = {
             "all grid shapes and level counts (intervals with polynomial ends in mk, mth, ihmax; reaching assignments, "
             "dominating conditions, counted loops, stored-value ranges, call bindings, widening/narrowing); use-after-free "
             "and the wrapper's unchecked preconditions are separate rules. Python half: 'cannot succeed' lints, ValueError "
-            "discipline of argument validation, guard dominance in the peak kernels.",
+            "discipline of argument validation, guard dominance in the peak kernels. Also: possibly empty partition lists never reach np.stack-like calls unguarded; overlapping boxes are rejected for every pair (shared with C09).",
             "termination of the immersion loops, NaN handling in C and finiteness of Python results are not decided; the "
             "counting-sort permutation and the FIFO queue discipline are stated assumptions.",
             "symbolic interval analysis (abstract interpretation) over the clang JSON AST + ast lints with CFG dominance",
@@ -83,7 +83,7 @@ CHECKS = {
             "bin is duplicated or lost; structural rules decide the order of operations (negated library Hs of the very "
             "partitions returned, pure permutation, truncate/pad after the sort, wind sea first), the exact-count case split "
             "(identity test for None, strict comparisons, [:n], n-len zero appends), the wind-sea fraction test, and sibling "
-            "agreement between each wrapper's declared part size and its kernel.",
+            "agreement between each wrapper's declared part size and its kernel. Also: accumulators start as zeros of the spectrum's own dtype; each wrapper binds (raw, smoothed) spectra in the kernel's order; every kernel parameter is read.",
             "that the masks equal the true basins is C04's matter; dtype rounding and ties between numerically equal "
             "partitions are not decided; np_hp01* merging logic is checked only for size agreement.",
             "custom ast rules: path enumeration (linear-consumption typestate) + structural ordering rules + sibling cross-check",
@@ -104,7 +104,7 @@ CHECKS = {
             "spectral dimensions only, that no float()/int()/.item() or Python branch condition depends on data, that every "
             "apply_ufunc is vectorised over the non-spectral dims, that the Dataset accessor re-exports the efth accessor "
             "unshadowed, and (shared C rules) that the native work buffers are rebuilt/overwritten per call and read a "
-            "C-contiguous copy of exactly one spectrum. These structural facts are why position i cannot see position j.",
+            "C-contiguous copy of exactly one spectrum. These structural facts are why position i cannot see position j. Also: no memo on the cached accessor (shared with C18); assign_coords only along spectral dimensions or wholesale from the function's own input.",
             "bit-exact equality batched vs single (floating-point association) is not decided; hmax is excluded by the "
             "property; parameter-name seeds of the provenance typing are stated assumptions.",
             "provenance/dimension typing lint over ast + apply_ufunc site rules + clang-AST definite-initialisation rules",
@@ -115,7 +115,7 @@ CHECKS = {
             "by it and by its exact complement; bounding boxes: all-pairs overlap check raising ValueError before masking, "
             "closed four-sided masks, complement remainder, omitted limits defaulting to order-insensitive min()/max(); PTM5: "
             "closed cutoff comparators on one object, regrid only off-grid; band split: bracketing-node weights and spacing, "
-            "label slicing, stats(limits) delegating to split; plus order provenance of directions.",
+            "label slicing, stats(limits) delegating to split; plus order provenance of directions. Also: split applies the direction band when EITHER limit is given.",
             "exact conservation in floating point and boundary bins where celerity equals the wind component up to rounding "
             "are not decided.",
             "custom ast structural rules (comparator/operand analysis, CFG ordering, default-agreement cross-check) + order provenance",
@@ -127,7 +127,7 @@ CHECKS = {
             "availability list is read by the candidate filter and the matched predecessor itself is retired; sentinel "
             "constants agree between matcher, propagator and _FillValue; the admissibility mask is the conjunction of the "
             "three threshold tests with sea thresholds for partition 0 and the threshold indexed at the interval's start; "
-            "sites are vectorised.",
+            "sites are vectorised. Also: no exit from the matcher before the marking loop; threshold vectors stay 1-D (indexed by the partition being continued); dfp_wsea's scaling multiplies the predicted frequency only.",
             "optimality of the greedy matching and behaviour for crossing systems beyond these invariants are not decided.",
             "custom ast typestate/pairing rules (store provenance, acquire-release pairing, sibling constant agreement)",
             "DESIGN.md section 4 C19"),
@@ -147,7 +147,7 @@ CHECKS = {
             "sign, side) tuples with order-insensitive min()/max() guards; directions are reduced % 360, de-duplicated and sorted "
             "before the seam neighbours are taken; frequency interpolation fills 0 outside the range and anchors zero energy at "
             "f=0; the variance factor is hs(source)^2/hs(result)^2 with the accessor's default Hs, applied last and "
-            "unconditionally, on by default and forwarded; rotate has a single relabel-and-regrid path; order provenance.",
+            "unconditionally, on by default and forwarded; rotate has a single relabel-and-regrid path; order provenance. Also: every package caller of regrid_spec keeps variance conservation on or forwards its own switch; the target freq/dir arguments are only coerced to arrays, never recomputed.",
             "the numeric heart of the property (identity on identical grids, non-negativity, exact Hs, whole-bin rotation equals "
             "a circular shift) follows from properties of linear interpolation and is NOT decided.",
             "custom ast structural rules (pairing tuples, CFG order, factor provenance) + order provenance",
@@ -168,7 +168,7 @@ CHECKS = {
             "missing or doubled bin width, a wrong power of frequency, a degree/radian slip, a reduction over the wrong dimension "
             "or an inconsistent sum changes the inferred type for every input. Plus the single 1-D/2-D integration path, "
             "sibling-constant agreement with the numpy twins, the exact deep-water closed forms and full coverage of the "
-            "wavenumber polynomial, circular / uncached bin widths (shared).",
+            "wavenumber polynomial, circular / uncached bin widths (shared). Also: no statistic writes the buffer of the spectrum it integrates (shared effect analysis); finite-depth celerity / wavelength go through wavenuma for every depth.",
             "numerical equality with the integrals, df-vs-freq mix-ups (same unit), float32/float64 agreement, the 0.1 % accuracy "
             "of the Chen-Thomson coefficients and hmax's wave count are NOT decided; gw has no unit obligation (see DESIGN).",
             "units-of-measure / dimension type inference (abstract interpretation over ast) against attributes.yml + sibling cross-check",
@@ -179,7 +179,7 @@ CHECKS = {
             "equal degrees gives 0, a constant added to or compared with a degree != 0 quantity breaks it) and proves heights "
             "degree 1/2, drift/slope/moments 1, periods/directions/spreads/shape parameters 0 (one known finding: sw). Plus: "
             "direction results reduced mod 360 last, scale_by_hs structure (factor, closed ranges, either-bound activation), and "
-            "for the rotation clause circular widths, coordinate-valued unconditional peak direction and no cached weights.",
+            "for the rotation clause circular widths, coordinate-valued unconditional peak direction and no cached weights. Also: in the peak locator and peak kernels density-derived values are compared only with zero or with each other (scale-free peak detection).",
             "the inequalities (Tm02 <= Tm01, dspr <= 81.03, swe <= 1) are Cauchy-Schwarz-type numeric facts and rotation "
             "equivariance as such is not executed; eval(expr) is opaque.",
             "homogeneity-degree type inference (abstract interpretation over ast) + structural rules",
@@ -203,7 +203,7 @@ CHECKS = {
             "spreading function uses the folded angular distance (also for windows), is normalised by the sum of the same masked "
             "array over dir with circle measure 2 pi / N, types as degree^-1, and the 2-D spectrum is exactly shape x spreading; "
             "the construction and fitting implementations agree term by term (monomial normal form), PM equals JONSWAP's first "
-            "two factors; circular bin widths (shared).",
+            "two factors; circular bin widths (shared). Also: the numpy twin and utils.scaled scale through the library's own Hs; the TMA depth function is evaluated at the unclipped kd.",
             "the numeric identities (JONSWAP(gamma=1) = PM values, deep-water TMA = JONSWAP, measured dm/dspr equal the requested "
             "ones) are not decided.",
             "custom ast rules: CFG order, sign analysis, argument-forwarding cross-check, monomial normal-form sibling comparison, units typing",
@@ -215,7 +215,7 @@ CHECKS = {
             "inverse rename, factors multiplying to one, 180-degree flip on both sides; Octopus energy<->density widths and "
             "table layout; Funwave amplitude formula composed with its inverse, direction involution; netCDF packing on a deep "
             "copy; chunk loops covering a trailing partial chunk; guard/action agreement in the shared stacking helper; "
-            "direction sorting as a gather by one permutation.",
+            "direction sorting as a gather by one permutation. Also: per-record buffers of the SWAN reader are allocated inside the iteration that fills and emits them; Octopus per-record date fields are indexed by the record loop.",
             "round-trip EQUALITY quantifies over data values and number formatting and is NOT decided: numeric resolution, "
             "NaN/zero survival, gzip and off-by-one values inside the chunk loops are out of reach of a static argument.",
             "sibling-implementation cross-check over ast with constant propagation (tables, formats, factors, axis order)",
@@ -225,7 +225,7 @@ CHECKS = {
             "degree, rho g for energy units) and the guards that select them, axis order of the WW3-station reshape, spreading "
             "normalisation (shared with C15; NDBC constant term integrates to one), no scaling on the 1-D path, the exact "
             "product efth(f) x cartwright(dir, dmf, dsprf) on the 2-D path, presence of the time sort, and SWAN's direction "
-            "sorting gathering labels and data by the same permutation.",
+            "sorting gathering labels and data by the same permutation. Also: per-record buffers allocated per iteration; reader classes memoise only construction-time state; read_swanow gives precedence to the newer file.",
             "parsing correctness (column order, header variants, timestamp parsing, multi-file concatenation) lives in runtime "
             "file contents and is NOT decided; this is the thinnest of the claimed checks.",
             "custom ast structural rules (constant folding, guard/branch pairing, exact-form checks) + shared spreading rules",
